@@ -187,10 +187,23 @@ func genC12() *rapid.Generator[*Spec] {
 			}
 			note = "struct " + note
 		} else {
-			ptrParent := x.pct(60, "ptrparent")
+			parKind := x.pick([]string{"S", "S", "*S", "*S", "*S", "PS"}, "parentkind")
+			ptrParent := parKind != "S"
 			par := S
-			if ptrParent {
+			switch parKind {
+			case "*S":
 				par = Ptr(S)
+			case "PS":
+				// a defined pointer type: a pointer parent by its underlying type
+				s.Decls = append(s.Decls, Decl{Pkg: spkg, Name: "PS", Form: "def", Under: Ptr(S)})
+				par = Named(len(s.Decls) - 1)
+			}
+			// what the parent's source provides: the parent type itself, or (near
+			// miss) the underlying type of a defined parent, which does not satisfy it
+			provPar := par
+			if parKind == "PS" && x.pct(30, "underlyingsource") {
+				provPar = Ptr(S)
+				parKind = "PS-from-*S"
 			}
 			names, mode := nameList(true)
 			if len(names) == 0 {
@@ -200,13 +213,16 @@ func genC12() *rapid.Generator[*Spec] {
 			in.Args = []Ref{RItem(fi)}
 			// source of the parent
 			psrc := x.pick([]string{"func", "func", "arg", "value", "struct"}, "parentsrc")
+			if strings.HasPrefix(parKind, "PS") && psrc == "struct" {
+				psrc = "func"
+			}
 			switch psrc {
 			case "func":
-				in.Args = append(in.Args, RItem(addItem(s, Item{Kind: "func", Pkg: spkg, Name: "ProvideS", Out: par, Cleanup: x.pct(20, "pcl")})))
+				in.Args = append(in.Args, RItem(addItem(s, Item{Kind: "func", Pkg: spkg, Name: "ProvideS", Out: provPar, Cleanup: x.pct(20, "pcl")})))
 			case "arg":
-				in.Params = append(in.Params, Param{Name: "parent", T: par})
+				in.Params = append(in.Params, Param{Name: "parent", T: provPar})
 			case "value":
-				in.Args = append(in.Args, RItem(addItem(s, Item{Kind: "value", Out: par, Tok: 5000})))
+				in.Args = append(in.Args, RItem(addItem(s, Item{Kind: "value", Out: provPar, Tok: 5000})))
 			case "struct":
 				// S built by a struct provider filling every field (tags ignored: name them explicitly)
 				var all []string
@@ -280,6 +296,9 @@ func genC12() *rapid.Generator[*Spec] {
 			in.Args = append(in.Args, RItem(ci))
 			in.Out = r
 			note = fmt.Sprintf("fields names-%s parent=%s ptr=%v", mode, psrc, ptrParent)
+			if strings.HasPrefix(parKind, "PS") {
+				note += " kind=" + parKind
+			}
 		}
 		if len(in.Args) > 1 && x.pct(50, "shuffleargs") {
 			in.Args = rapid.Permutation(in.Args).Draw(t, "argorder")
